@@ -3,13 +3,14 @@ C17 — Automatically discovered routes are canonical and always reach the clien
 
 Property theorems only; helper lemmas are in `Lemmas/RoutesBits.lean` (mask arithmetic),
 `Lemmas/RoutesText.lean` (tool grammars → tuples), `Lemmas/RoutesJunk.lean` (no line raises),
-`Lemmas/RoutesDelivery.lean` (message ↔ plan), `Lemmas/RoutesPins.lean` (source pins).
+`Lemmas/RoutesDelivery.lean` (message ↔ plan), `Lemmas/RoutesTable.lean` (whole tables, line classes, end to end), `Lemmas/RoutesPins.lean` (source pins).
 
 The model is of the *repaired* `_list_routes` (proposed_fixes/C17-skip-junk.diff: the extractor call is
 inside `try/except (ValueError, OSError, IndexError): continue`, negative prefix lengths are skipped).
 -/
 import SshuttleModel.Lemmas.RoutesText
 import SshuttleModel.Lemmas.RoutesDelivery
+import SshuttleModel.Lemmas.RoutesTable
 import SshuttleModel.Lemmas.RoutesPins
 
 namespace Sshuttle.Routes
@@ -287,5 +288,152 @@ theorem C17_ipv6_net_added_without_listener :
     onroutesLine ⟨true, false⟩ [49, 48, 44, 102, 101, 56, 48, 58, 58, 44, 54, 52] =
       .ok (some ⟨10, [102, 101, 56, 48, 58, 58], 64, 0, 0⟩) := by
   decide +kernel
+
+/-! ## 5. Whole tables: line skipping, the lines that carry no route, end to end -/
+
+/-- **Line by line.** For every tool and every list of output lines whatsoever, `list(list_routes())` is
+exactly the in-order list of what each line contributes on its own (`advOf`: at most one route per line). -/
+theorem C17_list_routes_linewise (tool : Tool) (lines : List Bytes) :
+    listRoutes tool lines = .ok (lines.filterMap (advOf tool)) :=
+  listRoutes_linewise tool lines
+
+/-- A line contributes nothing whenever the extractor raises on it or returns no address
+(`UnicodeDecodeError`, `ValueError`, `OSError`, `IndexError`, `(None, …)`): that is what "cannot be interpreted"
+means for the code. -/
+theorem C17_uninterpretable_contributes_nothing (tool : Tool) (line : Bytes)
+    (h : ∀ p m, (decodeAscii line >>= extractRoute tool) ≠ .ok (some p, m)) : advOf tool line = none :=
+  advOf_skip tool line h
+
+/-- **Line skipping never disturbs the other lines**, for every interleaving: removing from a table all the
+lines that contribute nothing (junk, headings, blank lines, … wherever they stand) leaves the advertised
+list unchanged; in particular inserting one such line anywhere changes nothing. -/
+theorem C17_junk_transparent (tool : Tool) (lines : List Bytes) :
+    listRoutes tool lines = listRoutes tool (lines.filter (fun l => (advOf tool l).isSome)) := by
+  rw [listRoutes_linewise, listRoutes_linewise, ← filterMap_drop_none]
+
+theorem C17_junk_line_inserted (tool : Tool) (before after : List Bytes) (junk : Bytes)
+    (h : advOf tool junk = none) :
+    listRoutes tool (before ++ junk :: after) = listRoutes tool (before ++ after) := by
+  simp [listRoutes_linewise, List.filterMap_append, h]
+
+/-- Non-vacuity: `10.0.0.0/8x dev eth0` (the F17 witness) contributes nothing. -/
+example : advOf .iproute [49, 48, 46, 48, 46, 48, 46, 48, 47, 56, 120, 32, 100, 101, 118, 32, 101, 116, 104, 48, 10] = none := by
+  decide +kernel
+
+/-- **`ip route` lines whose first word has no `/` carry no advertisement** — for every such line: the
+`default` route, the route-type keyword lines (`blackhole …`, `unreachable …`, `prohibit …`), titles, and
+bare host routes; whatever follows the first word (gateway, device, metric, …) is irrelevant. -/
+theorem C17_iproute_no_slash_omitted (ws word rest : Str) (hws : White ws) (hw : Word word) (hns : 47 ∉ word)
+    (hr : After rest) : advertise .iproute (ws ++ word ++ rest) = .ok none := by
+  rw [advertise_eq_advOf, advOf_iproute_noslash ws word rest hws hw hr hns]
+
+/-- `default via … dev … metric …` is never advertised. -/
+theorem C17_iproute_default_omitted (rest : Str) (hr : After rest) :
+    advertise .iproute (defaultText ++ rest) = .ok none := by
+  have := C17_iproute_no_slash_omitted [] defaultText rest (by intro c hc; cases hc)
+    ⟨by decide, by decide⟩ (by decide) hr
+  simpa using this
+
+/-- **Bare host routes, over the whole grammar** (known finding `C17:iproute:bare-host-route-omitted`):
+*every* `ip route` host route `a.b.c.d …` is dropped, although the property's reading demands `/32` for
+every one of them outside 0.x and 127.x. -/
+theorem C17_iproute_host_gap (a b c d : Nat) (ha : a < 256) (hb : b < 256) (hc : c < 256) (hd : d < 256)
+    (rest : Str) (hr : Rest rest) :
+    advertise .iproute ((Dest.net [a, b, c, d] none).text ++ rest) = .ok none ∧
+    (a ≠ 0 → a ≠ 127 → advertised (.net [a, b, c, d] none) = some (padded [a, b, c, d], 32)) := by
+  obtain ⟨hw, hns⟩ := host_word a b c d ha hb hc hd
+  refine ⟨?_, ?_⟩
+  · have := C17_iproute_no_slash_omitted [] (octText [a, b, c, d]) rest (by intro x hx; cases hx) hw hns hr.2
+    simpa [Dest.text] using this
+  · intro h0 h127
+    have hp : padded [a, b, c, d] / 2 ^ 24 = a := by simp only [padded]; omega
+    have hcn : canonNet (padded [a, b, c, d]) 32 = padded [a, b, c, d] := by simp [canonNet, Nat.mod_one]
+    have h8 : 8 * (0 + 1 + 1 + 1 + 1) = 32 := rfl
+    simp only [advertised, Dest.width, List.length_cons, List.length_nil, h8, hcn, hp]
+    simp [h0, h127]
+
+/-- **End to end, `ip route`.** For every table made of the grammar's lines (prefix routes with anything
+after them, first-word-without-slash lines, blank lines, lines with non-ASCII bytes — in any number and any
+interleaving) whose advertisement fits one frame (`hlen`; the unbounded statement is refuted by
+`C17_end_to_end_size_false`): `list_routes` yields exactly the specification's networks `ipRoutes table`;
+the server queues one ROUTES frame carrying them, which decodes back to the same message; the waiting client
+with `--auto-nets` adds exactly those networks if the user asked for an IPv4 listener and none otherwise
+(`servedNets`), and starts the firewall once with the plan: configured includes, earlier auto-nets, these
+networks, excludes, then the rest of the dialogue. -/
+theorem C17_end_to_end_iproute (table : List IpLine) (hwf : ∀ l ∈ table, l.Wf)
+    (hlen : (routePkt (ipRoutes table)).length ≤ 65535)
+    (tx : Mux.Tx) (c : Client) (tail : List Bytes) (hgr : c.gotRoutes = true) (hopt : c.autoNetsOpt = true)
+    (hasc : ∀ s ∈ c.incl ++ c.fwAutoNets ++ c.excl, s.Ascii) :
+    listRoutes .iproute (table.map IpLine.bytes) = .ok (ipRoutes table) ∧
+    sendRoutes tx (ipRoutes table) =
+      .ok { outbuf := tx.outbuf ++ [Mux.encode ⟨0, Generated.CMD_ROUTES, routePkt (ipRoutes table)⟩],
+            fullness := tx.fullness + (routePkt (ipRoutes table)).length } ∧
+    (∀ rest, Mux.decode1 (Mux.encode ⟨0, Generated.CMD_ROUTES, routePkt (ipRoutes table)⟩ ++ rest) =
+      .frame ⟨0, Generated.CMD_ROUTES, routePkt (ipRoutes table)⟩ rest) ∧
+    c.gotRoutesPacket (routePkt (ipRoutes table)) tail =
+      .ok { c with gotRoutes := false, fwAutoNets := c.fwAutoNets ++ servedNets c.listeners (ipRoutes table),
+                   dialogues := c.dialogues ++ [planServed c (ipRoutes table) tail] } :=
+  ⟨listRoutes_ipTable table hwf, sendRoutes_fits tx _ (ipRoutes_wf table hwf) hlen,
+   fun rest => Mux.decode1_encode _ rest, gotRoutes_served _ (ipRoutes_wf table hwf) c tail hgr hopt hasc⟩
+
+/-- **End to end, `netstat -rn`** (Linux rows with every contiguous Genmask, BSD rows with every abbreviation,
+titles and column headings, blank and non-ASCII lines, any interleaving): same statement. -/
+theorem C17_end_to_end_netstat (table : List NsLine) (hwf : ∀ l ∈ table, l.Wf)
+    (hlen : (routePkt (nsRoutes table)).length ≤ 65535)
+    (tx : Mux.Tx) (c : Client) (tail : List Bytes) (hgr : c.gotRoutes = true) (hopt : c.autoNetsOpt = true)
+    (hasc : ∀ s ∈ c.incl ++ c.fwAutoNets ++ c.excl, s.Ascii) :
+    listRoutes .netstat (table.map NsLine.bytes) = .ok (nsRoutes table) ∧
+    sendRoutes tx (nsRoutes table) =
+      .ok { outbuf := tx.outbuf ++ [Mux.encode ⟨0, Generated.CMD_ROUTES, routePkt (nsRoutes table)⟩],
+            fullness := tx.fullness + (routePkt (nsRoutes table)).length } ∧
+    (∀ rest, Mux.decode1 (Mux.encode ⟨0, Generated.CMD_ROUTES, routePkt (nsRoutes table)⟩ ++ rest) =
+      .frame ⟨0, Generated.CMD_ROUTES, routePkt (nsRoutes table)⟩ rest) ∧
+    c.gotRoutesPacket (routePkt (nsRoutes table)) tail =
+      .ok { c with gotRoutes := false, fwAutoNets := c.fwAutoNets ++ servedNets c.listeners (nsRoutes table),
+                   dialogues := c.dialogues ++ [planServed c (nsRoutes table) tail] } :=
+  ⟨listRoutes_nsTable table hwf, sendRoutes_fits tx _ (nsRoutes_wf table hwf) hlen,
+   fun rest => Mux.decode1_encode _ rest, gotRoutes_served _ (nsRoutes_wf table hwf) c tail hgr hopt hasc⟩
+
+/-- Non-vacuity: a mixed `ip route` table (default line, a /23 with host bits and a metric, a blank line, a
+line with a non-ASCII byte, a bare host) is well formed and its advertisement is the single network
+192.168.0.0/23. -/
+example :
+    let table : List IpLine :=
+      [.other [] defaultText [32, 118, 105, 97, 32, 49, 46, 50, 46, 51, 46, 52, 10],
+       .route (.net [192, 168, 1, 77] (some 23)) [32, 109, 101, 116, 114, 105, 99, 32, 54, 48, 48, 10],
+       .blank [32, 10], .garbled [233, 10],
+       .other [] [49, 48, 46, 56, 46, 48, 46, 49] [32, 100, 101, 118, 10]]
+    (∀ l ∈ table, l.Wf) ∧ (table.filterMap IpLine.net) = [(0xc0a80000, 23)] ∧
+    (routePkt (ipRoutes table)).length = 17 := by
+  refine ⟨?_, by decide, by decide⟩
+  intro l hl
+  simp only [List.mem_cons, List.not_mem_nil, or_false] at hl
+  rcases hl with rfl | rfl | rfl | rfl | rfl
+  · exact ⟨(by intro c hc; cases hc), ⟨by decide, by decide⟩, by decide, Or.inr ⟨32, _, rfl, by decide⟩⟩
+  · exact ⟨by simp [IpPrefix], by decide, Or.inr ⟨32, _, rfl, by decide⟩⟩
+  · show List.all _ _ = true; decide
+  · show List.all _ _ = false; decide
+  · exact ⟨(by intro c hc; cases hc), ⟨by decide, by decide⟩, by decide, Or.inr ⟨32, _, rfl, by decide⟩⟩
+
+/-- **The size hypothesis cannot be dropped** (known finding `C17:delivery:routes-message-exceeds-one-frame`):
+the well-formed table of 5462 lines `1.0.0.0/8 dev eth0` has a 65544-byte advertisement and `Mux.send`
+asserts — the server ends, nothing reaches the client. -/
+theorem C17_end_to_end_size_false :
+    ¬ (∀ (table : List IpLine), (∀ l ∈ table, l.Wf) → ∀ tx : Mux.Tx, ∃ tx', sendRoutes tx (ipRoutes table) = .ok tx') := by
+  intro h
+  let ln : IpLine := .route (.net [1, 0, 0, 0] (some 8)) [32, 100, 101, 118, 32, 101, 116, 104, 48, 10]
+  have hl : ln.Wf := ⟨by simp [IpPrefix], by decide, Or.inr ⟨32, _, rfl, by decide⟩⟩
+  have hwf : ∀ l ∈ List.replicate 5462 ln, l.Wf := fun l hl' => by rw [List.eq_of_mem_replicate hl']; exact hl
+  have hnet : IpLine.net ln = some (16777216, 8) := by decide
+  have hrs : ipRoutes (List.replicate 5462 ln) = List.replicate 5462 (toRoute (16777216, 8)) := by
+    show ((List.replicate 5462 ln).filterMap IpLine.net).map toRoute = _
+    rw [filterMap_replicate IpLine.net ln _ hnet, List.map_replicate]
+  have hlen : 65535 < (routePkt (ipRoutes (List.replicate 5462 ln))).length := by
+    rw [hrs, routePkt_replicate]
+    have : (fmtRoute (toRoute (16777216, 8))).length = 12 := by decide
+    omega
+  obtain ⟨tx', htx⟩ := h _ hwf {}
+  rw [sendRoutes_big {} _ (ipRoutes_wf _ hwf) hlen] at htx
+  cases htx
 
 end Sshuttle.Routes
